@@ -5,7 +5,7 @@ PATCH=$(realpath "$1"); PROP=$2; TIER=${3:-quick}
 WT=/tmp/seedtest_$$
 git -C /repo worktree add -q --detach "$WT" HEAD || exit 3
 ( cd "$WT" && git apply "$PATCH" ) || { echo "PATCH DOES NOT APPLY"; git -C /repo worktree remove --force "$WT"; exit 3; }
-cd /verif && PYPHYSIM_REPO="$WT" ./check "$PROP" --tier "$TIER" 2>&1 | grep -v "^KNOWN-FINDING" | tail -6
+cd /verif && VERIF_EVIDENCE_DIR=/tmp/seed_evidence PYPHYSIM_REPO="$WT" ./check "$PROP" --tier "$TIER" 2>&1 | grep -v "^KNOWN-FINDING" | tail -6
 rc=${PIPESTATUS[0]}
 git -C /repo worktree remove --force "$WT"
 echo "seedtest exit=$rc"
